@@ -127,7 +127,7 @@ def ht_closer_units(order, kind, f, tier):
             "C17.closer.every-entry-keeps-its-key-and-value", "C17.closer.no-entry-appears"]
     for i, tag in enumerate(tags):
         unit("ht.closer.%s.o%d.f%d.%d" % (kind, order, f, i + 1), ["C17"], "units/ht.c", entry="h_ht_closer", tier=tier, solver="cadical", unwind=64, kind="proof",
-             defines=["HT_ORDER=%d" % order, "HT_KIND=%d" % HT_KINDS[kind], "HT_F=%d" % f, "HT_ONLY=%d" % (i + 1)], shared_tags=True,
+             defines=["HT_ORDER=%d" % order, "HT_KIND=%d" % HT_KINDS[kind], "HT_F=%d" % f, "HT_ONLY=%d" % (i + 1)] + (["HT_WINDOW_WIDE=1"] if i + 1 in (4, 7) else []), shared_tags=True,
              bound="table order %d, free position %d (rotation symmetry: one position stands for all - assumption)" % (order, f),
              functions=["find_closer_entry_<name> (order %d, %s keys)" % (order, kind)], expect_tags=[tag], timeout=2400, mem_gb=20, mem_budget_gb=13,
              assumes=["window-based invariant with ghost indices (universal generalisation)", "uninterpreted hash", "rotation symmetry of the table for the choice of the free position"])
